@@ -189,6 +189,11 @@ func encodeSpecRec(p *plan, s *asch, v *aval) ([]byte, []fieldPos) {
 				enc(p.subs[i], f, v.vs[i])
 			}
 		case "array", "map":
+			// a map's entries are not pre-allocated from the declared count: huge map counts are safe in every tier
+			countRole := "count"
+			if s.kind == "map" {
+				countRole = "mcount"
+			}
 			pos := 0
 			for _, b := range p.blocks {
 				if b[1] == 1 {
@@ -201,10 +206,10 @@ func encodeSpecRec(p *plan, s *asch, v *aval) ([]byte, []fieldPos) {
 						}
 						body = append(body, e...)
 					}
-					vi(-int64(b[0]), "count")
+					vi(-int64(b[0]), countRole)
 					vi(int64(len(body)), "size")
 				} else {
-					vi(int64(b[0]), "count")
+					vi(int64(b[0]), countRole)
 				}
 				for k := pos; k < pos+b[0]; k++ {
 					if s.kind == "map" {
@@ -215,7 +220,7 @@ func encodeSpecRec(p *plan, s *asch, v *aval) ([]byte, []fieldPos) {
 				}
 				pos += b[0]
 			}
-			vi(0, "count")
+			vi(0, countRole)
 		case "union":
 			vi(int64(v.idx), "sel")
 			enc(p.subs[0], s.fields[v.idx], v.vs[0])
